@@ -19,9 +19,10 @@ func init() {
 			"(5) Insert is called only from MemTable.Put/Delete with MemTable.mu held exclusively; the IsImmutable test dominates Insert; immutable is only ever stored true; SwitchToNewMemTable marks the old table before publishing the new one under the pool's write lock; " +
 			"(6) Iterator.isVisible ⇔ snapshot == 0 ∨ seq ≤ snapshot (table), Next/Seek/SeekToFirst each contain the skip-invisible loop and Valid tests visibility; MemTable.Put/Delete keep nextSeqNum under a > guard. " +
 			"Added after blind round 4: MemTable.Get's decision table over both arms (no entry → (nil,false), deletion marker → (nil,true), value → (value,true)). " +
-			"Added after blind round 5: MemTablePool.Put/Delete write the active table with the pool lock held; the comparator does not subtract sequence numbers.",
+			"Added after blind round 5: MemTablePool.Put/Delete write the active table with the pool lock held; the comparator does not subtract sequence numbers. " +
+			"Added after blind round 6: the read accessors MemTable.Get, Iterator.Key, Iterator.Value (and transaction.Buffer.Get) return nil or freshly allocated bytes on every exit (tree defect in MemTable.Get, repaired: 3d66abb).",
 		NotDecided: "what concurrent readers observe under all interleavings (needs schedules); memory-model arguments beyond 'links are atomic.Pointer and published after initialisation'.",
-		Rules:      []func(*Ctx, *Reporter){ruleMemComparator, ruleMemFind, ruleMemInsert, ruleMemImmutableFields, ruleMemSingleWriter, ruleMemImmutable, ruleMemVisibility, ruleMemTableGetTable, rulePoolWritesUnderPoolLock, ruleComparatorNoSubtraction},
+		Rules:      []func(*Ctx, *Reporter){ruleMemComparator, ruleMemFind, ruleMemInsert, ruleMemImmutableFields, ruleMemSingleWriter, ruleMemImmutable, ruleMemVisibility, ruleMemTableGetTable, rulePoolWritesUnderPoolLock, ruleComparatorNoSubtraction, ruleAccessorsReturnCopies},
 	})
 }
 
